@@ -609,7 +609,8 @@ def check_axis(prog, rep):
     # sliceaxisix: integer positions on the listed axes, full slices elsewhere
     g = prog.func("pybrops.core.util.array", "sliceaxisix")
     rep.saw(g)
-    txt = dump(g.node)
+    from sa.astutil import normalise_nested
+    txt = dump(normalise_nested(g.node, ("l", "s", "a"), ("shape", "axis")))
     if txt.count("slice(None)") >= 2 and "range(s[len(l)])" in txt and "len(l) in a" in txt:
         rep.ok("R4-axis", g.qualname, "yields index tuples with range(shape[k]) on listed axes and slice(None) elsewhere")
     else:
